@@ -94,11 +94,7 @@ func TestE2E(t *testing.T) {
 	}
 	for i := 0; i < n; i++ {
 		var c *Case
-		if prof.Name == "repeat" {
-			c = g.genRepeatCase(prof, fmt.Sprintf("%s-%d-%d", prof.Name, seed, i))
-		} else {
-			c = g.genCase(prof, fmt.Sprintf("%s-%d-%d", prof.Name, seed, i))
-		}
+		c = g.genFor(prof, fmt.Sprintf("%s-%d-%d", prof.Name, seed, i), i)
 		canonCase(c)
 		_ = os.WriteFile(current, []byte(c.Encode()), 0o644)
 		cases = append(cases, c.Encode())
